@@ -1016,7 +1016,11 @@ def _shrink_candidates(c):
             yield dict(c, script=sc[:i] + sc[i + 1:])
     for i, cmd in enumerate(sc):
         if cmd[0] == "play" and cmd[1] > 0 and play_opts(c, cmd)[2] is None:
-            less = [[cmd[0], cmd[1] - 1] + list(cmd[2:])]
+            # (an integer format cannot take the float zero padding: whole chunks only)
+            dn = 1 if play_opts(c, cmd)[1] == "f" else play_opts(c, cmd)[0]
+            if cmd[1] < dn:
+                continue
+            less = [[cmd[0], cmd[1] - dn] + list(cmd[2:])]
             yield dict(c, script=sc[:i] + less + sc[i + 1:])
             yield dict(c, script=sc[:i] + less + sc[i + 1:], schedule=[])
     if c.get("with"):
@@ -1026,6 +1030,8 @@ def _shrink_candidates(c):
         for i, cmd in enumerate(sc):
             if cmd[0] == "play" and len(cmd) > 2:
                 for k in sorted(cmd[2]):
+                    if k == "cs" and cmd[2].get("dfmt") and cmd[1] % c["cs"]:
+                        continue
                     o = {a: b for a, b in cmd[2].items() if a != k}
                     plain = [[cmd[0], len(audio_of(c, 0, cmd)) if k == "src" else cmd[1]] + ([o] if o else [])]
                     yield dict(c, script=sc[:i] + plain + sc[i + 1:])
